@@ -109,6 +109,11 @@ Step(c, st, b) ==
          [] p = "hdronly" -> IF HdrDamaged(c, b) THEN <<"any", TRUE>> ELSE <<"stop", TRUE>>
          [] p = "paypart" -> <<"err", st[2]>>           \* unexpected EOF inside the payload
          [] OTHER ->
+              \* a malformed stream behind the records that a lowered count still parses may go unnoticed
+              IF HasB(c, "reforge", b) /\ HasV(c, "count", b, "less")
+                 /\ ~(HasB(c, "csize", b) \/ HasB(c, "usize", b) \/ HasB(c, "crc", b) \/ HasB(c, "payload", b))
+              THEN <<"any", TRUE>>
+              ELSE
               IF \/ HasB(c, "csize", b) \/ HasB(c, "usize", b) \/ HasB(c, "crc", b) \/ HasB(c, "payload", b)
                  \/ HasV(c, "count", b, "more") \/ HasB(c, "reforge", b)
               THEN <<"err", st[2]>>                     \* size / checksum / length mismatch / malformed entry
